@@ -196,6 +196,90 @@ where
     }
 }
 
+/// the same codec under the repo's own `WebSocketFramed`, over a real in-process WebSocket connection:
+/// every piece is sent as one binary message by a real WebSocket client
+pub struct WsFramed<C, E, I>
+where
+    C: Decoder,
+{
+    ws: Pin<Box<octo_squirrel::codec::WebSocketFramed<DuplexStream, C, E, I>>>,
+    peer: Option<tokio_websockets::WebSocketStream<DuplexStream>>,
+    done: bool,
+}
+
+impl<C, E, I> WsFramed<C, E, I>
+where
+    C: Decoder<Item = I, Error = anyhow::Error> + Encoder<E, Error = anyhow::Error> + Unpin,
+    I: Into<Common> + std::fmt::Debug,
+    E: FromEnc,
+{
+    pub fn new(rt: &tokio::runtime::Runtime, codec: C) -> Result<Self> {
+        let (a, b) = tokio::io::duplex(1 << 26);
+        let (client, server) = rt.block_on(async {
+            let c = async { tokio_websockets::ClientBuilder::new().uri("ws://localhost/").map_err(|e| anyhow::anyhow!(e))?.connect_on(a).await.map_err(|e| anyhow::anyhow!(e)) };
+            let s = async { tokio_websockets::ServerBuilder::new().accept(b).await.map_err(|e| anyhow::anyhow!(e)) };
+            tokio::join!(c, s)
+        });
+        let (client, _) = client?;
+        let (_, server) = server?;
+        Ok(WsFramed { ws: Box::pin(octo_squirrel::codec::WebSocketFramed::new(server, codec)), peer: Some(client), done: false })
+    }
+
+    fn drain(&mut self, ev: &mut Events) {
+        if self.done {
+            return;
+        }
+        loop {
+            match self.ws.as_mut().next().now_or_never() {
+                None => break,
+                Some(None) => {
+                    ev.0.push("end".into());
+                    self.done = true;
+                    break;
+                }
+                Some(Some(Ok(item))) => ev.item(item.into()),
+                Some(Some(Err(_))) => ev.0.push("err".into()),
+            }
+        }
+    }
+}
+
+impl<C, E, I> StreamObj for WsFramed<C, E, I>
+where
+    C: Decoder<Item = I, Error = anyhow::Error> + Encoder<E, Error = anyhow::Error> + Unpin,
+    I: Into<Common> + std::fmt::Debug,
+    E: FromEnc,
+{
+    fn encode(&mut self, _item: EncItem) -> Result<Vec<u8>> {
+        anyhow::bail!("encode through the websocket adapter is not driven by ops")
+    }
+
+    fn feed(&mut self, rt: &tokio::runtime::Runtime, piece: &[u8]) -> Events {
+        use futures::SinkExt;
+        let mut ev = Events::default();
+        rt.block_on(async {
+            if let Some(peer) = self.peer.as_mut() {
+                let _ = peer.send(tokio_websockets::Message::binary(bytes::Bytes::copy_from_slice(piece))).await;
+            }
+            self.drain(&mut ev);
+        });
+        ev
+    }
+
+    fn eof(&mut self, rt: &tokio::runtime::Runtime) -> Events {
+        use futures::SinkExt;
+        let mut ev = Events::default();
+        rt.block_on(async {
+            if let Some(mut peer) = self.peer.take() {
+                let _ = peer.close().await;
+                drop(peer);
+            }
+            self.drain(&mut ev);
+        });
+        ev
+    }
+}
+
 /// `ServerConfig<S>` can only be built by deserialising (it has a private marker field)
 pub fn server_config<S: Clone + Default + serde::de::DeserializeOwned>(protocol: &str, cipher: &str, password: &str, users: &[(String, String)]) -> Result<ServerConfig<S>> {
     let users: Vec<serde_json::Value> = users.iter().map(|(n, p)| serde_json::json!({"name": n, "password": p})).collect();
@@ -252,6 +336,14 @@ pub mod ss {
         })
     }
 
+    pub fn new_ws_server(rt: &tokio::runtime::Runtime, ctx: &SsCtx) -> Result<Boxed> {
+        Ok(match ctx {
+            SsCtx::S16(c) => Box::new(WsFramed::<_, OutboundIn, _>::new(rt, sv::shadowsocks::PayloadCodec::from(c))?),
+            SsCtx::S32(c) => Box::new(WsFramed::<_, OutboundIn, _>::new(rt, sv::shadowsocks::PayloadCodec::from(c))?),
+            _ => anyhow::bail!("server context expected"),
+        })
+    }
+
     pub fn new_stream(ctx: &SsCtx, addr: Option<Address>) -> Result<Boxed> {
         Ok(match ctx {
             SsCtx::C16(c) => Box::new(Framed::<_, BytesMut>::new(cv::shadowsocks::tcp::new_payload_codec(&addr.ok_or(anyhow::anyhow!("addr"))?, c.clone())?)),
@@ -280,6 +372,11 @@ pub mod vm {
         let cfg: ServerConfig<sv::SslConfig> = server_config("vmess", "aes-128-gcm", "-", users)?;
         Ok(Box::new(Framed::<_, OutboundIn>::new(sv::vmess::new_codec(&cfg)?)))
     }
+
+    pub fn ws_server(rt: &tokio::runtime::Runtime, users: &[(String, String)]) -> Result<Boxed> {
+        let cfg: ServerConfig<sv::SslConfig> = server_config("vmess", "aes-128-gcm", "-", users)?;
+        Ok(Box::new(WsFramed::<_, OutboundIn, _>::new(rt, sv::vmess::new_codec(&cfg)?)?))
+    }
 }
 
 pub mod tj {
@@ -299,5 +396,10 @@ pub mod tj {
     pub fn server(password: &str) -> Result<Boxed> {
         let cfg: ServerConfig<sv::SslConfig> = server_config("trojan", "aes-128-gcm", password, &[])?;
         Ok(Box::new(Framed::<_, OutboundIn>::new(sv::trojan::new_codec(&cfg)?)))
+    }
+
+    pub fn ws_server(rt: &tokio::runtime::Runtime, password: &str) -> Result<Boxed> {
+        let cfg: ServerConfig<sv::SslConfig> = server_config("trojan", "aes-128-gcm", password, &[])?;
+        Ok(Box::new(WsFramed::<_, OutboundIn, _>::new(rt, sv::trojan::new_codec(&cfg)?)?))
     }
 }
